@@ -3,8 +3,6 @@ from __future__ import annotations
 
 import ast
 
-from ..source import AnalysisError, ClassInfo, FuncInfo, norm, const_value, walk_no_nested
-from ..flow import enumerate_paths, iter_stmts
 
 
 def params(fi):
@@ -67,124 +65,25 @@ def bind_call(callee_node, call):
     return bound, extra, star
 
 
-def calls_in(node):
-    return [n for n in walk_no_nested(node) if isinstance(n, ast.Call)] + (
-        [node] if isinstance(node, ast.Call) else [])
 
 
-def attr_chain(node):
-    """('self','_array','copy') for self._array.copy ; None if not a pure Name/Attribute chain."""
-    parts = []
-    while isinstance(node, ast.Attribute):
-        parts.append(node.attr)
-        node = node.value
-    if isinstance(node, ast.Name):
-        parts.append(node.id)
-        return tuple(reversed(parts))
-    return None
 
 
-def root_name(node):
-    """The Name at the root of an Attribute/Subscript/Call-receiver chain, or None."""
-    while True:
-        if isinstance(node, ast.Attribute):
-            node = node.value
-        elif isinstance(node, ast.Subscript):
-            node = node.value
-        elif isinstance(node, ast.Starred):
-            node = node.value
-        else:
-            break
-    return node.id if isinstance(node, ast.Name) else None
 
 
-def returns_of(fnode):
-    return [n for n in walk_no_nested(fnode) if isinstance(n, ast.Return)]
 
 
-def stores_in(fnode):
-    """All store targets (Assign/AugAssign/AnnAssign/Delete/for/with targets) in a function, not nested defs."""
-    out = []
-    for n in walk_no_nested(fnode):
-        if isinstance(n, ast.Assign):
-            for t in n.targets:
-                out.append((t, n))
-        elif isinstance(n, (ast.AugAssign, ast.AnnAssign)):
-            out.append((n.target, n))
-        elif isinstance(n, ast.Delete):
-            for t in n.targets:
-                out.append((t, n))
-    return out
 
 
-def flatten_targets(t):
-    if isinstance(t, (ast.Tuple, ast.List)):
-        for e in t.elts:
-            yield from flatten_targets(e)
-    elif isinstance(t, ast.Starred):
-        yield from flatten_targets(t.value)
-    else:
-        yield t
 
 
-def conj_terms(test):
-    """Top-level conjuncts of a boolean expression (a and b and c -> [a,b,c])."""
-    if isinstance(test, ast.BoolOp) and isinstance(test.op, ast.And):
-        out = []
-        for v in test.values:
-            out.extend(conj_terms(v))
-        return out
-    return [test]
 
 
 # ------------------------------------------------------------------ local copy propagation
 import copy as _copy
 
 
-def alias_env(fnode):
-    """name -> expression for locals assigned exactly once (anywhere) from a pure Name/Attribute chain whose root is a
-    parameter that is itself never re-bound.  Used to see through `shape = value.shape` style aliases."""
-    counts, values = {}, {}
-    pnames = {a.arg for a in fnode.args.posonlyargs + fnode.args.args + fnode.args.kwonlyargs}
-    rebound = set()
-    for n in walk_no_nested(fnode):
-        tg = []
-        if isinstance(n, ast.Assign):
-            tg = [x for t in n.targets for x in flatten_targets(t)]
-        elif isinstance(n, (ast.AugAssign, ast.AnnAssign)):
-            tg = [n.target]
-        elif isinstance(n, (ast.For, ast.AsyncFor)):
-            tg = list(flatten_targets(n.target))
-        elif isinstance(n, ast.comprehension):
-            tg = list(flatten_targets(n.target))
-        for t in tg:
-            if isinstance(t, ast.Name):
-                counts[t.id] = counts.get(t.id, 0) + 1
-                if t.id in pnames:
-                    rebound.add(t.id)
-                if isinstance(n, ast.Assign) and len(n.targets) == 1 and n.targets[0] is t:
-                    values[t.id] = n.value
-    env = {}
-    for name, c in counts.items():
-        if c == 1 and name in values and name not in pnames:
-            v = values[name]
-            ch = attr_chain(v)
-            if ch is not None and ch[0] in pnames and ch[0] not in rebound:
-                env[name] = v
-    return env
 
 
-class _Subst(ast.NodeTransformer):
-    def __init__(self, env):
-        self.env = env
-
-    def visit_Name(self, node):
-        if isinstance(node.ctx, ast.Load) and node.id in self.env:
-            return _copy.deepcopy(self.env[node.id])
-        return node
 
 
-def subst(expr, env):
-    if not env:
-        return expr
-    return ast.fix_missing_locations(_Subst(env).visit(_copy.deepcopy(expr)))
